@@ -206,3 +206,46 @@ class Facts:
             if v["name"] == variant:
                 return int(v["discr"])
         return None
+
+
+def bytes_const(o):
+    """Value of a byte-string constant operand (parsed from rustc's rendering b"..."), else None."""
+    if o.get("k") != "const":
+        return None
+    d = o.get("dbg") or ""
+    if not (d.startswith('b"') and d.endswith('"')):
+        return None
+    body = d[2:-1]
+    out = bytearray()
+    i = 0
+    while i < len(body):
+        c = body[i]
+        if c == "\\":
+            n = body[i + 1]
+            if n == "x":
+                out.append(int(body[i + 2:i + 4], 16))
+                i += 4
+                continue
+            out.append({"n": 10, "t": 9, "r": 13, "0": 0, "\\": 92, '"': 34, "'": 39}.get(n, ord(n)))
+            i += 2
+            continue
+        out.extend(c.encode("utf-8"))
+        i += 1
+    return bytes(out)
+
+
+def fmt_template(bs):
+    """Decode a core::fmt template (rustc >= 1.9x encoding): list of str literals and None for an argument."""
+    out = []
+    i = 0
+    while i < len(bs):
+        b = bs[i]
+        if b == 0:
+            break
+        if b >= 0x80:
+            out.append(None)
+            i += 1
+            continue
+        out.append(bs[i + 1:i + 1 + b].decode("utf-8", "replace"))
+        i += 1 + b
+    return out
